@@ -6,6 +6,10 @@ from . import prover
 def main():
     import os
     ctx = Context(repo_root=os.environ.get("PYVC_REPO", "/repo"), timeout_ms=int(os.environ.get("PYVC_TIMEOUT_MS", "10000")))
+    for plug in os.environ.get('PYVC_PLUGINS', '').split(','):
+        if plug:
+            mod = __import__('pyvc.' + plug, fromlist=['x'])
+            ctx.plugins.append(mod.Plugin(ctx))
     ctx.load_sidecar(sys.argv[1])
     ctx.finalize()
     filt = sys.argv[2] if len(sys.argv) > 2 else None
